@@ -302,6 +302,10 @@ def jobs(tier, seed):
     from specs import C13
     extra.append(Job("C14_create_throw", '#include "C14_exc.inc"\n', [dict(name="creation that fails by throwing", fn=check_create_throw, unwind=400),
                                                                        dict(name="refused second create leaves the sandbox created", fn=check_double_create, unwind=400)], native=False, flags=fl))
+    extra.append(Job("C14_stale_distance", C13.NOOP + '#include "C13_full.inc"\n', [dict(name="noop: owner of an earlier incarnation at any distance", fn=C13.check_stale_distance, unwind=400)], native=False))
+    extra.append(Job("C14_outside_window_exc", C13.NOOP + '#include "C13_full_exc.inc"\n',
+                     [dict(name="registration outside the created window leaves nothing for the next incarnation (exceptions)", fn=C13.check_refused_exc, kw=dict(k="k_cb_outside_window_exc", nvals=2), unwind=400)],
+                     native=False, flags=["-D_GLIBCXX_EXTERN_TEMPLATE=0"]))
     extra.append(Job("C14_noop_recreate", C13.NOOP + '#include "C13_full.inc"\n', [dict(name="noop second incarnation (callbacks)", fn=C13.check_recreate, unwind=400)], native=False))
     extra.append(Job("C14_dylib_recreate", C13.DYLIB + '#include "C13_full.inc"\n', [dict(name="dylib second incarnation (callbacks)", fn=C13.check_recreate, unwind=400)],
                      native=False, flags=fl))
